@@ -1,45 +1,53 @@
-import BbRe.Lemmas.SchedTreePrimStruct
+import BbRe.Model.SchedTreeCheck
+import BbRe.Lemmas.SchedTreePrimQueue
+import BbRe.Lemmas.SchedTreePrimPark
+import BbRe.Lemmas.SchedTreePrimCreate
+import BbRe.Lemmas.SchedTreePrimIdle
+import BbRe.Lemmas.SchedInvStep
 /-!
-The four bags of `Lemmas/SchedTreeInvDefs.lean` computed from the state of the tree layer, and how they
-change when a task, a worker or a worker's extras are replaced.
+The invariant of the tree layer: `Sched`'s invariant for the projection, `TreeOK` for the bags computed
+from the state (`Model/SchedTreeCheck.lean`: `bagE`, `bagI`, `bagQ`, `bagP`), and the coupling between
+the tree layer's own tables and `Sched.State`.  Plus the list algebra that tells how the bags change when
+one task / one worker entry is replaced.
 -/
 namespace BbRe.Lemmas.SchedTree
-open BbRe.Sched BbRe.SchedTree
+open BbRe.Sched BbRe.SchedTree BbRe.Lemmas.SchedInv
 
-/-! ### contributions of one task / worker -/
+/-- coupling of the tree layer's tables with the scheduler state -/
+structure Side (ts : TState) : Prop where
+  /-- every size-class queue has its root invocation; every invocation belongs to a queue -/
+  roots : ∀ sq ∈ ts.s.scqs, (node? ts.nodes sq.id []).isSome = true
+  nscq : ∀ n ∈ ts.nodes, ∃ sq ∈ ts.s.scqs, sq.id = n.scq
+  /-- one entry of worker extras per worker -/
+  wxnd : (ts.wx.map (fun x => (x.scq, x.id))).Nodup
+  wxw : ∀ q w, (ts.wx? q w).isSome = (ts.s.worker? q w).isSome
+  /-- `listIndex != -1` iff `wakeup != nil`; `lastInvocation == nil` iff the worker has a task -/
+  wpl : ∀ q w wk x, ts.s.worker? q w = some wk → ts.wx? q w = some x →
+    x.parked = wk.parked ∧ (x.last = none ↔ wk.task.isSome = true)
+  /-- `task.operations` agrees with `operationsNameMap` -/
+  oxok : ∀ o op, ts.s.op? o = some op → alookup o ts.ox = some ⟨op.inv, op.prio⟩
+  /-- a task runs on a worker of its own size-class queue -/
+  wq : ∀ k t q w, alookup k ts.s.tasks = some t → t.worker = some (q, w) → q = t.scq
 
-/-- executing operations of task `t` (one per operation, if the task is assigned to a worker) -/
-def conE (ox : List (Nat × OX)) (t : Task) : List EC :=
-  match t.worker with
-  | some (_, w) => t.ops.map (fun o => (t.scq, (match alookup o ox with | some y => y.inv | none => []), some w))
-  | none => []
+/-- the invariant of the tree layer (with `Sched`'s exemption sets and the tree's exemption list) -/
+structure TInvX (ex exo : Nat → Prop) (X : List (ScqId × List Nat)) (ts : TState) : Prop where
+  inv : InvX ex exo ts.s
+  tree : TreeOK X ts.nodes (bagE ts) (bagI ts) (bagQ ts) (bagP ts)
+  side : Side ts
 
-/-- queued operations of task `t` -/
-def conQ (ox : List (Nat × OX)) (t : Task) : List QC :=
-  if t.queued then t.ops.map (fun o => (t.scq, (match alookup o ox with | some y => y.inv | none => []), o)) else []
+abbrev TInv (ts : TState) : Prop := TInvX (fun _ => False) (fun _ => False) [] ts
 
-def conI (x : WX) : List IC := match x.last with | some p => [(x.scq, p)] | none => []
+/-- the part of the invariant that is about the tree layer's own tables -/
+structure TS (X : List (ScqId × List Nat)) (ts : TState) : Prop where
+  tree : TreeOK X ts.nodes (bagE ts) (bagI ts) (bagQ ts) (bagP ts)
+  side : Side ts
 
-def lastIn (wx : List WX) (q : ScqId) (w : WId) : Option (List Nat) :=
-  match wx.find? (fun x => x.scq = q ∧ x.id = w) with | some x => x.last | none => none
-
-def conP (wx : List WX) (w : Worker) : List PC :=
-  if w.parked then (match lastIn wx w.scq w.id with | some p => [(w.scq, p, w.id)] | none => []) else []
-
-def bagE (ts : TState) : List EC := ts.s.tasks.flatMap (fun kt => conE ts.ox kt.2)
-def bagQ (ts : TState) : List QC := ts.s.tasks.flatMap (fun kt => conQ ts.ox kt.2)
-def bagI (ts : TState) : List IC := ts.wx.flatMap conI
-def bagP (ts : TState) : List PC := ts.s.workers.flatMap (conP ts.wx)
-
-theorem lastIn_eq (ts : TState) (q : ScqId) (w : WId) : lastIn ts.wx q w = ts.lastOf q w := by
-  unfold lastIn TState.lastOf TState.wx?; rfl
-
-theorem invOf_eq (ts : TState) (o : Nat) :
-    (match alookup o ts.ox with | some y => y.inv | none => []) = ts.invOf o := rfl
+theorem TInvX.ts {ex exo X ts} (h : TInvX ex exo X ts) : TS X ts := ⟨h.tree, h.side⟩
+theorem TInvX.mk' {ex exo X ts} (hi : InvX ex exo ts.s) (h : TS X ts) : TInvX ex exo X ts := ⟨hi, h.tree, h.side⟩
 
 /-! ### replacing one entry of an association list -/
 
-theorem flatMap_aset_some {α β} (f : Nat × α → List β) (hf : ∀ k k' v, f (k, v) = f (k', v)) (k : Nat) (v1 : α) :
+theorem flatMap_aset_some {α β} (f : Nat × α → List β) (k : Nat) (v1 : α) :
     ∀ (l : List (Nat × α)) (v0 : α), alookup k l = some v0 →
       (l.flatMap f ++ f (k, v1)).Perm ((aset k v1 l).flatMap f ++ f (k, v0)) := by
   intro l
@@ -54,7 +62,6 @@ theorem flatMap_aset_some {α β} (f : Nat × α → List β) (hf : ∀ k k' v, 
     · simp only [hk, if_true] at h ⊢
       cases h
       simp only [List.flatMap_cons]
-      -- (f (k,v0) ++ rest) ++ f (k,v1)  ~  (f (k,v1) ++ rest) ++ f (k,v0)
       refine List.Perm.trans (List.perm_append_comm) ?_
       refine List.Perm.trans ?_ (List.perm_append_comm)
       rw [← List.append_assoc, ← List.append_assoc]
@@ -98,5 +105,90 @@ theorem flatMap_aerase_some {α β} (f : Nat × α → List β) (k : Nat) :
       refine List.Perm.trans (List.Perm.append_left _ (ih v0 h)) ?_
       rw [← List.append_assoc, ← List.append_assoc]
       exact List.Perm.append_right _ List.perm_append_comm
+
+/-! ### replacing the entry of one worker in the list of extras -/
+
+def wxkey (x : WX) : ScqId × WId := (x.scq, x.id)
+
+theorem wx?_eq (ts : TState) (q : ScqId) (w : WId) : ts.wx? q w = ts.wx.find? (fun x => x.scq = q ∧ x.id = w) := rfl
+
+/-- with distinct keys, `setWX` changes exactly the entry found by `find?` -/
+theorem flatMap_setWX {β} (f : WX → List β) (q : ScqId) (w : WId) (g : WX → WX) (hg : ∀ x, wxkey (g x) = wxkey x) :
+    ∀ (l : List WX), (l.map wxkey).Nodup → ∀ x0, l.find? (fun x => x.scq = q ∧ x.id = w) = some x0 →
+      (l.flatMap f ++ f (g x0)).Perm ((setWX l q w g).flatMap f ++ f x0) := by
+  intro l
+  induction l with
+  | nil => intro _ x0 h; cases h
+  | cons a t ih =>
+    intro hnd x0 h
+    simp only [List.map_cons, List.nodup_cons] at hnd
+    rw [List.find?_cons] at h
+    by_cases ha : (a.scq = q ∧ a.id = w)
+    · simp only [ha, and_self, decide_true] at h
+      cases h
+      -- the rest of the list has no entry with this key
+      have hrest : setWX t q w g = t := by
+        unfold setWX
+        have : ∀ x ∈ t, (if x.scq = q ∧ x.id = w then g x else x) = x := by
+          intro x hx
+          split
+          · rename_i hk
+            exfalso; apply hnd.1
+            rw [List.mem_map]; exact ⟨x, hx, by simp [wxkey, hk.1, hk.2, ha.1, ha.2]⟩
+          · rfl
+        rw [List.map_congr_left this, List.map_id']
+      have hhead : setWX (a :: t) q w g = g a :: t := by
+        show (if a.scq = q ∧ a.id = w then g a else a) :: setWX t q w g = _
+        rw [hrest]; simp [ha]
+      rw [hhead]
+      simp only [List.flatMap_cons]
+      refine List.Perm.trans (List.perm_append_comm) ?_
+      refine List.Perm.trans ?_ (List.perm_append_comm)
+      rw [← List.append_assoc, ← List.append_assoc]
+      exact List.Perm.append_right _ List.perm_append_comm
+    · have ha' : decide (a.scq = q ∧ a.id = w) = false := by simpa using ha
+      rw [ha'] at h
+      have hhead : setWX (a :: t) q w g = a :: setWX t q w g := by
+        show (if a.scq = q ∧ a.id = w then g a else a) :: setWX t q w g = _
+        simp [ha]
+      rw [hhead]
+      simp only [List.flatMap_cons, List.append_assoc]
+      exact List.Perm.append_left _ (ih hnd.2 x0 h)
+
+theorem setWX_keys (l : List WX) (q : ScqId) (w : WId) (g : WX → WX) (hg : ∀ x, wxkey (g x) = wxkey x) :
+    (setWX l q w g).map wxkey = l.map wxkey := by
+  unfold setWX
+  rw [List.map_map]
+  apply List.map_congr_left
+  intro x _
+  simp only [Function.comp]
+  split
+  · exact hg x
+  · rfl
+
+theorem find?_setWX (l : List WX) (q : ScqId) (w : WId) (g : WX → WX) (hg : ∀ x, wxkey (g x) = wxkey x)
+    (q' : ScqId) (w' : WId) :
+    (setWX l q w g).find? (fun x => x.scq = q' ∧ x.id = w') =
+      (l.find? (fun x => x.scq = q' ∧ x.id = w')).map (fun x => if x.scq = q ∧ x.id = w then g x else x) := by
+  induction l with
+  | nil => rfl
+  | cons a t ih =>
+    have hk : ∀ y : WX, ((if a.scq = q ∧ a.id = w then g a else a).scq = q' ∧ (if a.scq = q ∧ a.id = w then g a else a).id = w') ↔
+        (a.scq = q' ∧ a.id = w') := by
+      intro _
+      split
+      · have := hg a; simp only [wxkey, Prod.mk.injEq] at this; rw [this.1, this.2]
+      · rfl
+    show List.find? _ ((if a.scq = q ∧ a.id = w then g a else a) :: setWX t q w g) = _
+    rw [List.find?_cons, List.find?_cons]
+    by_cases hc : a.scq = q' ∧ a.id = w'
+    · have h1 : decide ((if a.scq = q ∧ a.id = w then g a else a).scq = q' ∧ (if a.scq = q ∧ a.id = w then g a else a).id = w') = true := by
+        simpa using (hk a).mpr hc
+      have h2 : decide (a.scq = q' ∧ a.id = w') = true := by simpa using hc
+      rw [h1, h2]; rfl
+    · have h1 : decide ((if a.scq = q ∧ a.id = w then g a else a).scq = q' ∧ (if a.scq = q ∧ a.id = w then g a else a).id = w') = false := by
+        simpa using fun h => hc ((hk a).mp h)
+      have h2 : decide (a.scq = q' ∧ a.id = w') = false := by simpa using hc
+      rw [h1, h2]; exact ih
 
 end BbRe.Lemmas.SchedTree
